@@ -180,7 +180,7 @@ def connOp (sc : Scn) (cid : String) (dc : DConn) (op : String) (args ts : List 
       let env := match kvHex ts "img", kvHex ts "full" with
         | some i, some f => some (i, f)
         | _, _ => none
-      let (e, w, pm) := writePrepared w pm env
+      let (e, w, pm) := writePrepared w pm env dnp fullp
       let pms : List (String × PM) := sc.pms.map (fun (p : String × PM) => if p.1 == pid then (pid, pm) else p)
       ({ sc.putDConn cid { dc with w } with pms := pms }, resLine (eres e) w.log)
   | "feed", chunks :: _ =>
